@@ -202,15 +202,25 @@ Theorem xa_failed_save_no_exit bang tab sch k :
   snd (fst (fst (quit_n true bang [] tab sch []))) = false.
 Proof. intros. apply quit_n_failed_save. eauto. Qed.
 
-(* the finding on the unchanged tree: a refused :xa has written the buffers in front of the refusing slot without recording it *)
-Lemma xa_refused_partial_save :
+(* a successful save of the loop keeps the invariant of the buffer's history (it is the saved mark of a whole write) *)
+Lemma written_inv f : nname f <> None -> NInv f -> NInv (written f).
+Proof.
+  intros Nm [(g0 & D) Dk]. split.
+  - exists g0. cbn [written set_nb nb lb disk]. apply (saved_inv _ _ _ D).
+  - cbn [written set_nb nname]. intro N. contradiction.
+Qed.
+
+(* the repaired behaviour (37c81b2), on the history of the finding of round j: table g (current, clean), f (file `foo`, text changed to
+   `bar`), the unnamed start-up buffer.  :xa writes g and f and is refused at the unnamed slot; f is now reported CLEAN (its file holds
+   `bar`); one `u` in f: reported MODIFIED (text `foo`, file `bar`), and :q over [f; unnamed; g] is refused *)
+Lemma xa_refused_records_saves :
   exists (tab : ntable) (f' : nbuf),
     Forall NInv (noccupied tab) /\
     let '(t', q, _, _) := ec_quit_n CXa false WOwn tab [] in
-    q = false /\ nth_error t' 2 = Some (Some f') /\ nname f' = Some 1%nat /\
+    q = false /\ nth_error t' 2 = Some (Some f') /\ nname f' = Some 1%nat /\ dirty_flag (nb f') = false /\ ln (lb (nb f')) = disk (nb f') /\
     let f'' := nrun f' [NUndo; NBump] in
-    dirty_flag (nb f'') = false /\ ln (lb (nb f'')) <> disk (nb f'') /\
-    snd (fst (fst (ec_quit_n CQ false WOwn (Some f'' :: firstn 2 t') []))) = true.
+    dirty_flag (nb f'') = true /\ ln (lb (nb f'')) <> disk (nb f'') /\
+    snd (fst (fst (ec_quit_n CQ false WOwn (Some f'' :: firstn 2 t') []))) = false.
 Proof.
   set (foo := [102; 111; 111; 10]%N). set (bar := [98; 97; 114; 10]%N).
   set (g := nbuf_open foo 2).
